@@ -202,7 +202,14 @@ func GenStream(r *payload.SplitMix, max int) Stream {
 			hdr := []byte{kind<<1 | 1}
 			hdr = refwire.PutUvarint(hdr, sid)
 			hdr = refwire.PutUvarint(hdr, mid)
-			hdr = refwire.PutUvarint(hdr, uint64(1)<<uint(20+r.Intn(43)))
+			huge := uint64(1) << uint(20+r.Intn(44)) // up to 2^63: lengths that do not fit a signed int
+			switch r.Intn(6) {
+			case 0:
+				huge = ^uint64(0)
+			case 1:
+				huge = uint64(1)<<63 + uint64(r.Intn(1000))
+			}
+			hdr = refwire.PutUvarint(hdr, huge)
 			b = append(b, hdr...)
 			b = append(b, body(r.Intn(3*min(effMax, 5000)+100))...)
 			desc = append(desc, "huge-declared-length")
@@ -214,10 +221,14 @@ func GenStream(r *payload.SplitMix, max int) Stream {
 				per = effMax/n + 1
 				big++
 			}
-			for i := 0; i < n+1; i++ {
+			cnt := n + 1
+			if effMax <= 1<<16 && r.Intn(2) == 0 {
+				cnt = 32 * n // far beyond the limit: what is held must stay bounded all the way
+			}
+			for i := 0; i < cnt; i++ {
 				emit(refwire.Frame{Stream: sid, Message: mid, Kind: kind, Done: false, Data: body(per)})
 			}
-			desc = append(desc, fmt.Sprintf("never-done(%dx%d)", n+1, per))
+			desc = append(desc, fmt.Sprintf("never-done(%dx%d)", cnt, per))
 		case act == 14: // burst of small frames after a large one
 			if effMax < 1<<20 {
 				emit(refwire.Frame{Stream: sid, Message: mid, Kind: kind, Done: true, Data: body(effMax)})
